@@ -115,6 +115,31 @@ def _extras(p: T.Dict[str, T.Any], root: Path, rnd: random.Random) -> T.Dict[str
           "configure_file(input: 'c06_big.h.in', output: 'c06_bigcap.txt', command: [c06_cat, '@INPUT@'], capture: true)"]
     kept.update({'c06_bigkeys.h': 'configuration-large', 'c06_big.h': 'template-large', 'c06_bigcopy.txt': 'copy-large',
                  'c06_bigcap.txt': 'capture-large'})
+    # configure-time depfile: the prerequisites a configure_file(command:, depfile:) reports become build-definition
+    # files (REGENERATE_BUILD inputs of build.ninja, intro-buildsystem_files.json); 14 existing source files named in
+    # a scrambled textual order, two of them through a nested rule
+    dd = root / 'c06_deps'
+    dd.mkdir(exist_ok=True)
+    names = [f'f{i:02d}_{w}.txt' for i, w in enumerate(['zulu', 'alpha', 'mike', 'echo', 'x', 'bravo', 'yankee', 'kilo',
+                                                        'delta', 'oscar', 'charlie', 'whiskey', 'papa', 'golf'])]
+    for n in names:
+        (dd / n).write_text(f'prerequisite {n}\n')
+    order = names[:12]
+    rnd.shuffle(order)
+    script = ['#!/bin/sh', '# usage: c06_depgen.sh OUTPUT DEPFILE SRCDIR', 'out="$1"; dep="$2"; src="$3/c06_deps"',
+              'printf "generated with a depfile\\n" > "$out"', '{', '  printf "%s:" "$(basename "$out")"']
+    for n in order:
+        script.append(f'  printf " %s" "$src/{n}"')
+    script += ['  printf "\\n"', f'  printf "%s: %s %s\\n" "$src/{order[3]}" "$src/{names[12]}" "$src/{names[13]}"', '} > "$dep"']
+    (root / 'c06_depgen.sh').write_text('\n'.join(script) + '\n')
+    (root / 'c06_depgen.sh').chmod(0o755)
+    L += ["c06_depgen = find_program('c06_depgen.sh')",
+          "configure_file(output: 'c06_depout.txt', depfile: 'c06_depout.d', "
+          "command: [c06_depgen, '@OUTPUT@', '@DEPFILE@', meson.current_source_dir()])"]
+    dep_files = ', '.join(f"'c06_deps/{n}'" for n in rnd.sample(names, 8))
+    L += [f"c06_ct3 = custom_target('c06_dependfiles', output: 'c06_dependfiles.out', command: [c06_cat, files('c06_tmpl.h.in')], "
+          f"capture: true, depend_files: files({dep_files}), build_by_default: true)",
+          f"meson.add_install_script(c06_cat, files({dep_files}), install_tag: 'c06')"]
     # several wraps / subprojects (directory listing order of subprojects/)
     order = list(SUBS)
     rnd.shuffle(order)
@@ -155,6 +180,8 @@ def _extras(p: T.Dict[str, T.Any], root: Path, rnd: random.Random) -> T.Dict[str
         deps = ', '.join(['c06_decl', 'c06_z'] + [f'{n}_d' for n in order])
         L.append(f"c06_app = executable('c06_app', 'c06_app.c', dependencies: [{deps}], c_args: ['-DAPP_Z', '-DAPP_A'], "
                  "install: true, install_rpath: '$ORIGIN/../lib', build_rpath: '/c06/rp2:/c06/rp1', "
+                 "extra_files: files('c06_deps/f00_zulu.txt', 'c06_deps/f05_bravo.txt', 'c06_deps/f02_mike.txt'), "
+                 "link_depends: files('c06_deps/f09_oscar.txt', 'c06_deps/f01_alpha.txt', 'c06_deps/f06_yankee.txt'), "
                  "implicit_include_directories: true, gnu_symbol_visibility: 'hidden')")
         dep_list = ', '.join([projgen.target_var(i) for i in shared[:4]] + ['c06_ct1', 'c06_ct2'])
         L += [f"test('c06_envtest', c06_app, env: c06_env, depends: [{dep_list}], args: ['--x', c06_ct1], "
